@@ -165,6 +165,10 @@ class C19(Prop):
         for pw in list(range(2, 1101 if tier != "quick" else 700)) + [4095, 4096, 4097, 65535, 65536, 65537, 99999, 1000001, 16777217]:
             t = f"1 m^{pw}" if pw % 2 else f"1 s^-{pw}"
             out.append(Case(f"cli {C.hexs(t)} decimal", "power-range", t))
+        for t in ("3 m / (1 s * 2 kg)", "6 / (2 s * 1 m)", "4.2 kJ/kg*K", "1 W/m^2*K^4", "1 kg*m^2/s^3*A^2", "1/(1 s * 1 m * 1 kg)",
+                  "2 N*m/(1 s * 1 K)", "1 mol/(1 s * 1 cd * 1 B)"):
+            for mode in ("exact", "decimal"):
+                out.append(Case(f"cli {C.hexs(t)} {mode}", "several-denominators", t))
         for t in ("2 m^6 * 2 m^6", "1 km^12", "1 m^5 * 1 m^7 / 1 s^13", "1 mm^2 * 1 km", "1 dam * 1 hm", "3 Mg", "1 kg * 1 Mg"):
             out.append(Case(f"cli {C.hexs(t)} decimal", "power-sweep", t))
         n = 120 if tier == "quick" else 900
